@@ -164,8 +164,16 @@ def check_value(v):
             return kind, "decoded-value-differs"
         try:
             r = parse(text).rebuild()
+            if G.parse_cst(r).has_error:
+                return kind, "reparse-rebuild-yields-a-syntax-error"
             if parse(r).rebuild() != r:
                 return kind, "reparse-rebuild-unstable"
+            kids2 = [c for c in G.parse_cst(r).children if c.type != "comment"]
+            try:
+                if not same(decode(kids2[0]), expected):
+                    return kind, "reparse-rebuild-changes-the-value"
+            except Undecodable:
+                return kind, "reparse-rebuild-not-plain-data"
         except Exception as e:
             return kind, f"reparse-raises:{type(e).__name__}"
     return None
